@@ -27,8 +27,15 @@ import traceback
 import multiprocessing as mp
 
 VERIF = os.path.dirname(os.path.dirname(os.path.abspath(__file__)))
-EVIDENCE_DIR = os.path.join(VERIF, "evidence")
-REPLAY_DIR = os.path.join(VERIF, "replays")
+REPO = os.environ.get("XV_REPO", "/repo")
+if REPO == "/repo":
+    EVIDENCE_DIR = os.path.join(VERIF, "evidence")
+    REPLAY_DIR = os.path.join(VERIF, "replays")
+else:
+    # a run against a scratch tree never touches the committed evidence
+    _alt = os.environ.get("XV_ALT_OUT", "/dev/shm/xv-alt")
+    EVIDENCE_DIR = os.path.join(_alt, "evidence")
+    REPLAY_DIR = os.path.join(_alt, "replays")
 KNOWN_FILE = os.path.join(VERIF, "known_findings.json")
 NPROC = int(os.environ.get("XV_NPROC", "0")) or min(16, os.cpu_count() or 1)
 
@@ -165,8 +172,8 @@ def _run_one(mod, case):
         # a step the harness expects to succeed (it does on a correct tree)
         # is a verdict about the library; anything else is a harness bug.
         tb = traceback.extract_tb(e.__traceback__)
-        lib = [f for f in tb if f.filename.startswith("/repo/")]
-        if lib and tb[-1].filename.startswith(("/repo/", "/venv/", "/root/")):
+        lib = [f for f in tb if f.filename.startswith(REPO + "/")]
+        if lib and tb[-1].filename.startswith((REPO + "/", "/venv/", "/root/")):
             where = lib[-1].name
             return {
                 "nontrivial": False, "outcome": "unexpected-exception",
